@@ -33,7 +33,7 @@ Next ==
        ELSE IF skip THEN UNCHANGED <<st, bad, devs, skip, scn, cnt, nt>>
        ELSE LET r == Apply(st, e) IN
             /\ st' = r.st /\ scn' = scn
-            /\ skip' = ~r.ok
+            /\ skip' = (~r.ok /\ ~("cont" \in DOMAIN r /\ r.cont))    \* cont: the violation is recorded and the scenario goes on from r.st
             /\ bad' = IF r.ok THEN bad
                       ELSE bad \cup {[scn |-> scn, line |-> l, ev |-> e.ev, why |-> r.why]}
             /\ devs' = IF r.ok /\ r.dev # "" THEN devs \cup {[scn |-> scn, dev |-> r.dev, site |-> r.site]} ELSE devs
